@@ -74,10 +74,10 @@ CHECKS["C07"] = ("model_checking",
     TRUST, "DESIGN.md §4 C07, §11")
 CHECKS["C08"] = ("exploration",
     "TLC-generated exhaustive affine systems + seeded systems/polynomials/contractions run on the real routines; TLC (Val_C08) judges each "
-    "run against the contract Iterative (cap, finite, distance to root / residual, Err for singular); the Steffensen and Newton designs are "
-    "model-checked over exact rationals (MC_Steffensen, MC_NewtonP); every map evaluation of the real steffensen() runs is validated bit "
-    "for bit (Trace_Steffensen) and every closure call of the real newton() runs against the Newton equation and stopping rule of "
-    "NewtonP over doubles (Trace_Newton, refinement)",
+    "run against the contract Iterative (cap, finite, distance to root / residual, Err for singular); the Steffensen, Newton and secant (Broyden) "
+    "designs are model-checked over exact rationals (MC_Steffensen, MC_NewtonP, MC_SecantP); every map evaluation of the real steffensen() "
+    "runs is validated bit for bit (Trace_Steffensen) and every closure call of the real newton() / secant() runs against the Newton "
+    "equation, Broyden's defining equations and the stopping rules over doubles (Trace_Newton, Trace_Secant, refinement)",
     "Exhaustive in small scope for affine systems (exact expected root), exploration elsewhere. The contract (not a convergence proof) is "
     "evaluated by TLC on every run. Design-level trace validation reports drift, never a violation.",
     TRUST, "DESIGN.md §4 C08, §11")
